@@ -466,6 +466,28 @@ class M2Executor(Executor):
             return out
         return Executor.e_Call(self, node, st, fr)
 
+    def e_Compare(self, node, st, fr):
+        # `spec.unknown_compare = {names}`: an ==/!= whose operand is one of these locals is decided by the callee's
+        # __eq__ on objects that were mutated in place (stores through sub-objects are not visible in the term of the
+        # object): the result is an unknown boolean, no term equality is learnt from it
+        names = getattr(self.spec, 'unknown_compare', None)
+        if names and len(node.ops) == 1 and isinstance(node.ops[0], (ast.Eq, ast.NotEq)):
+            ops = [node.left, node.comparators[0]]
+            if any(isinstance(o, ast.Name) and o.id in names for o in ops):
+                acc, raises = self.eval_seq(ops, st, fr)
+                out = list(raises)
+                for s_, _vals in acc:
+                    u = z3.Bool(fresh_name('objects_equal'))
+                    fn = names.get([o.id for o in ops if isinstance(o, ast.Name) and o.id in names][0]) \
+                        if isinstance(names, dict) else None
+                    if fn is not None:
+                        # what equality of the (edited) objects does imply, stated by the task
+                        s_.assume(z3.Implies(u, fn(self, _vals[0], _vals[1], s_)))
+                    s_.ghost['last_unknown_compare'] = VBool(u)
+                    out.append(Outcome('normal', s_, VBool(u if isinstance(node.ops[0], ast.Eq) else z3.Not(u))))
+                return out
+        return Executor.e_Compare(self, node, st, fr)
+
     def _eval_args(self, node, st, fr):
         """-> list of (st, recv, args, kwargs), raises"""
         recv_outs = [Outcome('normal', st, None)]
